@@ -1356,7 +1356,7 @@ def shards(tier):
         return w
 
     descs = sorted(descs, key=lambda d: -weight(d))
-    target = sum(weight(d) for d in descs) / (90 if tier == "quick" else 300)
+    target = sum(weight(d) for d in descs) / (90 if tier == "quick" else 170)
     cur, acc = [], 0
     for d in descs:
         cur.append(d)
